@@ -877,3 +877,77 @@ pub fn replay_clocks(_opts: &Opts) -> i32 {
     out_line("SUMMARY", &json!({"counts": {"lines": lines}, "distinct": lines, "nontrivial": lines, "mismatches": mism, "samples": [], "extra": {}}));
     0
 }
+
+// ------------------------------------------------------------------------------------------------
+// C03, second sentence, in volume: a board reached by playing moves against the same position
+// rebuilt from its text.  No oracle is involved (equality of two observations of the implementation),
+// so this runs at implementation speed; the specification-based steps decide everything else.
+// ------------------------------------------------------------------------------------------------
+
+pub fn sweep_twin(opts: &Opts) -> i32 {
+    let roots = read_json_file(&opts.str("roots", "/verif/spec/roots.json"));
+    let seed = opts.num("seed", 1);
+    let shard = opts.num("shard", 0);
+    let walks = opts.num("walks", 500);
+    let plies = opts.num("plies", 60);
+    let mut rng = rng(seed, 7000 + shard);
+    let mut t = Tally::new();
+    let n = roots.as_array().map_or(0, |a| a.len());
+    for w in 0..walks {
+        let r = &roots[((w + shard * 31) as usize) % n];
+        let fen = r["fen"].as_str().unwrap_or("");
+        let Ok(mut board) = fen.parse::<Board>() else { continue };
+        for ply in 0..plies {
+            if !has_both_kings(&board) || board.half_move_clock() > 9000 || board.full_move_clock() > 9000 {
+                break;
+            }
+            op!("sweep-twin seed={seed} shard={shard} walk={w} ply={ply} board={board}");
+            let legals = legal_codes(&board);
+            if legals.is_empty() {
+                break;
+            }
+            let hot: Vec<u32> = legals.iter().copied().filter(|&c| is_interesting(&board, c)).collect();
+            let c = if !hot.is_empty() && rng.gen_bool(0.6) { *hot.choose(&mut rng).unwrap() } else { *legals.choose(&mut rng).unwrap() };
+            let Some(next) = checked_move(&board, decode(c), ply as u32) else { break };
+            board = next;
+            if !has_both_kings(&board) {
+                break;
+            }
+            t.inc("positions");
+            let text = board.to_string();
+            let case = json!({"root": fen, "walk": w, "ply": ply, "fen": text});
+            match text.parse::<Board>() {
+                Err(e) => t.mismatch("C05", "reparse-own-text", &case, json!("ok"), json!(format!("{e:?}"))),
+                Ok(twin) => {
+                    let a = obs_json(&board, false);
+                    let b = obs_json(&twin, false);
+                    for k in ["chk", "st", "cks", "pins", "zob", "phash", "fen", "len", "empty"] {
+                        if a[k] != b[k] {
+                            t.mismatch("C03", &format!("twin-{k}"), &case, b[k].clone(), a[k].clone());
+                            if k == "zob" || k == "phash" {
+                                // C04: the incrementally maintained hash against the hash built from scratch
+                                t.mismatch("C04", "incremental-hash-differs-from-rebuilt", &case, b[k].clone(), a[k].clone());
+                            }
+                        }
+                    }
+                    if sorted(codes_of(&a["legals"])) != sorted(codes_of(&b["legals"])) {
+                        t.mismatch("C03", "twin-legals", &case, b["legals"].clone(), a["legals"].clone());
+                    }
+                    if format!("{board:?}") != format!("{twin:?}") || format!("{board:#?}") != format!("{twin:#?}") || board != twin {
+                        t.mismatch("C03", "twin-debug-or-eq", &case, json!(format!("{twin:?}")), json!(format!("{board:?}")));
+                    }
+                    let tags = classify_pos(&board, &codes_of(&a["legals"]));
+                    if !tags.is_empty() {
+                        t.nontrivial.insert(text.clone());
+                    }
+                    t.distinct.insert(text);
+                }
+            }
+            if t.mismatches > 50 {
+                break;
+            }
+        }
+    }
+    t.summary(json!({}));
+    0
+}
